@@ -535,7 +535,8 @@ impl Property for C03 {
                 return fail("C03/instance/substituted-value", ctxmsg(format!("decision variable {} lost or changed its earlier recorded value {:?} -> {:?}", a.id, a.substituted_value, b.substituted_value)));
             }
             let eb = |v: &v1::DecisionVariable| effective_bound(v).ok().map(|(l, h)| (l.to_bits(), h.to_bits()));
-            if a.kind != b.kind || eb(a) != eb(b) {
+            let fixed_now = s1.entries.contains_key(&a.id);
+            if a.kind != b.kind || (!fixed_now && eb(a) != eb(b)) {
                 return fail("C03/instance/variable-domain-changed", ctxmsg(format!("decision variable {} changed its kind or effective bound: {a:?} -> {b:?}", a.id)));
             }
             let mut b2 = b.clone();
